@@ -18,6 +18,40 @@ def chain_filter(rl):
     return hits
 
 
+def filter_rules(ctx, rule, rule_raw, rl, flt):
+    """The chain selection compares the raw chain column of the record with the
+    raw strings of the option (shared with C06: renaming a chain together with
+    the option that names it selects the same atoms - also to and from the blank
+    identifier, which only the raw column represents as it is given)."""
+    mod = rl.mod
+    # R2: purity of the filter test
+    names = names_in(flt.test)
+    cols = rl.columns_in(flt.test)
+    allowed_names = {'chains', rl.line} | {n for n in names if n in rl.aliases}
+    ctx.ob(rule, 'filter:reads-only-option-and-chain-column',
+           names <= allowed_names and cols == ['chain'],
+           'the filter test reads only `chains` and the chain column of the record '
+           '(names %s, columns %s)' % (sorted(names), cols), mod, flt)
+    # shape: skip iff chains given and column not in chains
+    txt = norm(flt.test)
+    col_expr = None
+    for node in ast.walk(flt.test):
+        if isinstance(node, ast.Compare) and isinstance(node.ops[0], ast.NotIn) \
+                and norm(node.comparators[0]) == 'chains':
+            col_expr = node.left
+    shape_ok = isinstance(flt.test, ast.BoolOp) and isinstance(flt.test.op, ast.And) \
+        and norm(flt.test.values[0]) in ('chains', 'chains is not None') \
+        and col_expr is not None and rl.slice_of(col_expr) == (21, 22)
+    ctx.ob(rule, 'filter:shape', shape_ok,
+           'a record is skipped exactly when a selection is given and its raw chain '
+           'character (column 22) is not in it: ' + txt, mod, flt)
+    # the chain test uses the raw column (a blank id is selectable with " "),
+    # not the "_"-normalised Atom.chain_id
+    ctx.ob(rule_raw, 'filter:raw-column', 'chain_id' not in txt,
+           'the comparison is on the raw column character, not on Atom.chain_id', mod, flt)
+
+
+
 def run(ctx):
     prog = ctx.prog
     rl = RecordLoop(prog)
@@ -87,31 +121,7 @@ def run(ctx):
 
     common.check_options_readonly(ctx, 'C13.R2', prog)
 
-    # R2: purity of the filter test
-    names = names_in(flt.test)
-    cols = rl.columns_in(flt.test)
-    allowed_names = {'chains', rl.line} | {n for n in names if n in rl.aliases}
-    ctx.ob('C13.R2', 'filter:reads-only-option-and-chain-column',
-           names <= allowed_names and cols == ['chain'],
-           'the filter test reads only `chains` and the chain column of the record '
-           '(names %s, columns %s)' % (sorted(names), cols), mod, flt)
-    # shape: skip iff chains given and column not in chains
-    txt = norm(flt.test)
-    col_expr = None
-    for node in ast.walk(flt.test):
-        if isinstance(node, ast.Compare) and isinstance(node.ops[0], ast.NotIn) \
-                and norm(node.comparators[0]) == 'chains':
-            col_expr = node.left
-    shape_ok = isinstance(flt.test, ast.BoolOp) and isinstance(flt.test.op, ast.And) \
-        and norm(flt.test.values[0]) in ('chains', 'chains is not None') \
-        and col_expr is not None and rl.slice_of(col_expr) == (21, 22)
-    ctx.ob('C13.R2', 'filter:shape', shape_ok,
-           'a record is skipped exactly when a selection is given and its raw chain '
-           'character (column 22) is not in it: ' + txt, mod, flt)
-    # the chain test uses the raw column (a blank id is selectable with " "),
-    # not the "_"-normalised Atom.chain_id
-    ctx.ob('C13.R3', 'filter:raw-column', 'chain_id' not in txt,
-           'the comparison is on the raw column character, not on Atom.chain_id', mod, flt)
+    filter_rules(ctx, 'C13.R2', 'C13.R3', rl, flt)
 
     # R3: wiring
     opts = common.parser_options(prog)
